@@ -7,6 +7,6 @@ EXTENDS MC_TraceQL
 cDay == <<0, 0, 1, 1, 1, 2>>
 cLayers == {"term", "bool", "agg", "chain", "win"}
 cMods == [term |-> 1, bool |-> 1, agg |-> 1, chain |-> 1, win |-> 1, rand |-> 1]
-cFlags == AllFlags
+cFlags == {"distinct"}   \* = tools/props/c11.py CODE_DEVIATIONS (AllFlags = the planner of the pinned tree, before the repairs)
 cRand == {}
 ====
